@@ -12,9 +12,17 @@ from vlib.refs import morton, sharded_spec
 KEY = "s0"
 
 
+BIG_SEED = 2 ** 17
+
+
 def payload(seed, pos, maxlen=48):
+    """Deterministic chunk payload.  Seeds >= BIG_SEED give payloads of
+    66..117 KB (beyond 4 KiB read blocks and 64 KiB buffers)."""
     h = hashlib.blake2b(repr((seed, tuple(pos))).encode(),
                         digest_size=48).digest()
+    if seed >= BIG_SEED:
+        n = 66000 + 200 * h[0]
+        return (h * (n // 48 + 1))[:n]
     n = 1 + h[0] % maxlen
     return h[1:1 + n] if n < 48 else h
 
@@ -77,7 +85,9 @@ bits_st = st.one_of(
     st.tuples(st.integers(0, 3), st.integers(0, 3), st.integers(0, 3)),
     st.tuples(st.integers(0, 5), st.integers(0, 5), st.integers(0, 6)),
     st.tuples(st.integers(0, 2), st.sampled_from([0, 1, 60, 64, 70]),
-              st.sampled_from([0, 1, 9, 64, 70])))
+              st.sampled_from([0, 1, 9, 64, 70])),
+    # more than 32 / 64 shards for grids of 40+ chunks
+    st.tuples(st.integers(0, 1), st.integers(6, 8), st.integers(0, 1)))
 
 
 @st.composite
@@ -93,12 +103,15 @@ def shard_cases(draw, max_grid=5, min_chunks=1):
         subset = draw(st.lists(st.sampled_from(positions), unique=True,
                                min_size=min(min_chunks, len(positions))))
     order = draw(st.permutations(subset)) if subset else []
+    seed = draw(st.integers(0, 2 ** 16))
+    if len(order) <= 6 and draw(st.integers(0, 5)) == 0:
+        seed = BIG_SEED + draw(st.integers(0, 50))
     return {"grid": grid, "cs": cs, "rem": rem, "bits": list(draw(bits_st)),
             "index_enc": draw(st.sampled_from(["raw", "gzip"])),
             "data_enc": draw(st.sampled_from(["raw", "gzip"])),
             "order": [list(p) for p in order],
             "strategy": draw(st.sampled_from(["on disk", "in memory"])),
-            "seed": draw(st.integers(0, 2 ** 16))}
+            "seed": seed}
 
 
 def routing_stats(case):
